@@ -84,7 +84,7 @@ func c20(c *Check) {
 		if !inScope(fn) || len(fn.Blocks) == 0 || !strings.Contains(fnPkgPath(fn), "/x/rvesting") {
 			continue
 		}
-		for _, cs := range c.P.CallsIn(fn) {
+		for _, cs := range c.P.CallsInOwn(fn) {
 			if !strings.Contains(cs.Name, "BankKeeper.") {
 				continue
 			}
